@@ -1,6 +1,7 @@
 import VaxisModel.Driver.Common
 import VaxisModel.Model.Key
 import VaxisModel.Spec.KeyEnc
+import VaxisModel.Spec.KeyEncUni
 
 /-! Driver for C09 (key decoding and binding matching).  Every line is self-contained
 (stateless, shardable).  Tokens are space separated.
@@ -19,6 +20,9 @@ Ops (`op<TAB>impl`):
   self U F key              impl = String()|0|1 model keyString + matchString of it; oracle: a pressed chord matches
   str U key                 impl = runes        model keyString
   xp U F seqL seqK binds    impl = strL|strK|bitsL|bitsK   cross-protocol: same String, same bindings
+  hypa U F                  impl = agree|differ hypothesis AsciiAgree of self_match evaluated on Go's ToLower / SimpleFold (128 ASCII runes)
+  hyp kind U c C withText   impl = ok|viol:…    hypotheses of Props.C09Uni.cross_protocol_char_<kind> evaluated on Go's values
+  xpu kind class U F …      as xp, for a character key of any script (legacy sequence = Spec.KeyEncUni.legacyChar)
 -/
 namespace VaxisModel.Driver.C09
 open VaxisModel.Driver VaxisModel.Model.Key VaxisModel.Spec
@@ -160,6 +164,76 @@ def parseBinds? (tok : String) : Option (List (Int × Nat)) :=
     | [r, m] => do let r ← r.toInt?; let m ← m.toNat?; pure (r, m)
     | _ => none
 
+/-- `hypa`: AsciiAgree on the rows / fold pairs the harness computed with Go's `unicode` package
+    (folding only from the `F=` pairs — nothing hard-wired). -/
+def asciiAgreeOn (t : List URow) (f : List (Int × Int)) : Bool :=
+  let lower (r : Int) : Int := match findRow t r with | some row => row.lo | none => r
+  let fold (a b : Int) : Bool := f.any fun (x, y) => (x == a && y == b) || (x == b && y == a)
+  (List.range 128).all fun (a : Nat) =>
+    lower a == KeyEnc.asciiUni.toLower a &&
+    (List.range 128).all fun (b : Nat) => fold a b == KeyEnc.asciiUni.foldEq a b
+
+def stepUni (op : List String) (impl : String) : Option String :=
+  match op with
+  | ["hypa", ut, ft] =>
+    match parseU? ut, parseF? ft with
+    | some t, some f =>
+      let model := if asciiAgreeOn t f then "agree" else "differ"
+      let v := if model = "agree" ∧ impl = "agree" then "ok"
+               else "FAIL AsciiAgree (hypothesis of self_match) does not hold of Go's unicode tables"
+      some s!"{model}\t{impl}\t{v}"
+    | _, _ => none
+  | ["hyp", kind, ut, ct, Ct, wt] =>
+    match parseU? ut, ct.toInt?, Ct.toInt? with
+    | some t, some c, some C =>
+      let u := mkUni t []
+      let dom := t.map (·.r)
+      let withText := wt == "1"
+      let hs := match kind with
+        | "plain" => KeyEncUni.hypPlain u dom c withText
+        | "shift" => KeyEncUni.hypShift u c C withText
+        | "alt" => KeyEncUni.hypAlt u c
+        | _ => KeyEncUni.hypAltShift u c C
+      let v := KeyEncUni.violated hs
+      let model := if v.isEmpty then "ok" else "viol:" ++ ",".intercalate v
+      some s!"{model}\t{impl}\t-"
+    | _, _, _ => none
+  | ["xpu", kind, cls, ut, ft, num, fin, key, mods, sh, form, bt, sl, sk] =>
+    match parseU? ut, parseF? ft, parseSeq? sl, parseSeq? sk, parseBinds? bt,
+          num.toInt?, fin.toInt?, key.toInt?, mods.toNat?, sh.toInt?, form.toNat? with
+    | some t, some f, some seqL, some seqK, some binds, some num, some fin, some key, some mods, some sh, some form =>
+      let u := mkUni t f
+      let kl := decodeKey u seqL
+      let kk := decodeKey u seqK
+      let bits (k : Key) : String := String.join (binds.map fun (r, m) => b01 («matches» u k r m))
+      let model := s!"{showStr (keyString u kl)}|{showStr (keyString u kk)}|{bits kl}|{bits kk}"
+      let fm : KeyEnc.Form := { withShifted := bit form 0, withBase := bit form 1, withMods := bit form 2,
+                                withEvent := bit form 3, withText := bit form 4 }
+      let produced := if mods % 2 = 1 then sh else key
+      let c : KeyEnc.Chord := { key, mods, shifted := sh, text := if fm.withText then [produced] else [] }
+      let v :=
+        if !(num = key ∧ fin = 117 ∧ validRune key = true ∧ lookup2 (key, 117) KeyEnc.functional = none) then
+          "FAIL generator: not a character key"
+        else if KeyEnc.kittySeq num fin c fm ≠ seqK then "FAIL generator/parser: kitty sequence differs from Spec.kittySeq"
+        else if KeyEncUni.legacyChar key sh mods ≠ some seqL then "FAIL generator/parser: legacy sequence differs from Spec.legacyChar"
+        else match impl.splitOn "|" with
+        | [a, b, c, d] =>
+          if a ≠ b then s!"FAIL xpu[{kind} {cls}] String() differs between the legacy and the kitty report: {a} vs {b}"
+          else if c ≠ d then
+            let idx := (List.zip c.toList d.toList).findIdx (fun (p : Char × Char) => p.1 != p.2)
+            match binds[idx]? with
+            | some (r, m) =>
+              let rel := if r = key then "the key itself" else if r = sh then "the shifted character"
+                         else if u.toUpper r = key then "a lower-case rune whose upper case is the key"
+                         else if r = u.toUpper key then "ToUpper of the key" else "a related rune"
+              s!"FAIL xpu[{kind} {cls}] binding ({r}, mods {m}) [{rel}] matches under one encoding only"
+            | none => s!"FAIL xpu[{kind} {cls}] bindings differ"
+          else "ok"
+        | _ => "FAIL malformed impl"
+      some s!"{model}\t{impl}\t{v}"
+    | _, _, _, _, _, _, _, _, _, _, _ => none
+  | _ => none
+
 def step (line : String) : String :=
   let (op, impl) := splitTab line
   match fields op with
@@ -259,7 +333,7 @@ def step (line : String) : String :=
         | _ => "FAIL malformed impl"
       s!"{model}\t{impl}\t{v}"
     | _, _, _, _, _, _, _, _, _, _, _ => bad
-  | _ => bad
+  | op => (stepUni op impl).getD bad
 
 def main : IO Unit := lineLoop step
 
